@@ -67,6 +67,12 @@ def functional_scan(ctx, W, fn, ev, wire_w):
     return n
 
 
+def _gsv_found_variant(ctx):
+    """discriminant of "a supported version was found": Some (1) for Option<Version>, Ok (0) when the scan reports none as an Err"""
+    f = ctx.prog.fns.get("roughenough::request::get_supported_version")
+    return 0 if f is not None and f.locals[0]["ty"].startswith("core::result::Result<") else 1
+
+
 def run(ctx):
     W = World(ctx)
     P = ctx.prog
@@ -126,7 +132,8 @@ def run(ctx):
         if bl.idx not in fn.reachable():
             continue
         for i, st in enumerate(bl.stmts):
-            if fn.is_return_assign(st, "Some"):
+            # `return Some(v)`; `return Ok(v)` when the scan reports "none" as an error (Result<Version, Error>)
+            if fn.is_return_assign(st, "Some") or (fn.locals[0]["ty"].startswith("core::result::Result<") and fn.is_return_assign(st, "Ok")):
                 somes.append((bl.idx, i, ev.rvalue(st["rv"], (bl.idx, i))))
     for (bb, i, term) in somes:
         x = W.expand(term[2][0])
@@ -191,7 +198,7 @@ def run(ctx):
     for bb in oks:
         rels = flow.rel_facts_at(RIN, bb)
         from lib import fact_is_present
-        okv = fact_is_present(rels, lambda x: is_call(x, "get_supported_version"))
+        okv = fact_is_present(rels, lambda x: is_call(x, "get_supported_version"), variant_index=_gsv_found_variant(ctx))
         ctx.check("gate", "ok-requires-supported-version", okv, "Ok only when a supported version was found", "Ok without a supported version", rf.loc(bb))
     ef = flow.edge_facts(rf, rev)
     found = False
